@@ -21,7 +21,9 @@ pub enum Act {
     /// writer: one batch (one seqno)
     Write(Vec<WriteItem>),
     /// reader: open a snapshot, read these keys (and optionally scan), release it
-    Read { keys: Vec<Bytes>, scan: bool },
+    Read { keys: Vec<Bytes>, scan: bool, #[serde(default)] reread: bool },
+    /// ingester: bulk-ingest a sorted batch (standard trees only)
+    Ingest(Vec<WriteItem>),
     Rotate,
     Flush { use_wm: bool },
     Leveled { l0: u8, target: u64, use_wm: bool },
@@ -54,8 +56,9 @@ enum Ev {
     WriteBegin { s: u64, items: Vec<WriteItem>, ev: u64 },
     WriteEnd { s: u64, ev: u64 },
     SnapOpen { tid: u32, s: u64, ev: u64 },
-    Read { tid: u32, s: u64, key: Vec<u8>, got: Option<Vec<u8>>, ev: u64 },
-    Scan { tid: u32, s: u64, got: Vec<(Vec<u8>, Vec<u8>)>, ev: u64 },
+    Read { tid: u32, s: u64, e_s: u64, key: Vec<u8>, got: Option<Vec<u8>>, ev: u64 },
+    Scan { tid: u32, s: u64, e_s: u64, got: Vec<(Vec<u8>, Vec<u8>)>, ev: u64 },
+    IngestDone { g: u64, items: Vec<WriteItem>, begin_ev: u64, ev: u64 },
     MaintBegin { tid: u32, what: &'static str, ev: u64 },
     MaintEnd { tid: u32, ev: u64 },
     Error { tid: u32, what: String, ev: u64 },
@@ -126,6 +129,7 @@ pub fn gen_conc(prop: &PropDef, seed: u64, tier: &str) -> RunSpec {
             a.push(Act::Read {
                 keys: (0..n).map(|_| r.pick(&keys).clone()).collect(),
                 scan: r.chance(1, 4),
+                reread: r.chance(1, 2),
             });
         }
         threads.push(("reader".into(), a));
@@ -177,6 +181,50 @@ pub fn gen_conc(prop: &PropDef, seed: u64, tier: &str) -> RunSpec {
         }
         threads.push(("exclusive".into(), a));
     }
+    // optional ingester, only in the C02 variant (C06's thread set is the one its statement
+    // names). Standard trees only (DESIGN 6), and on a key class of its own: a write that lands
+    // in the fresh memtable between the flush inside finish() and the registration of the
+    // ingested tables is ordered *before* the ingestion by its seqno but *above* it in read
+    // order, which is outside every listed property (they quantify over sequential ingestion).
+    let mut ikeys: Vec<Bytes> = Vec::new();
+    if prop.id == "C02" && cfg.blob.is_none() && r.chance(2, 3) {
+        ikeys = (0..4 + r.usize(4)).map(|i| Bytes(format!("i{i:02}").into_bytes())).collect();
+        let mut a = Vec::new();
+        for _ in 0..(1 + r.usize(3)) * scale {
+            let n = 1 + r.usize(4);
+            let mut used = BTreeSet::new();
+            let mut items = Vec::new();
+            for j in 0..n {
+                let k = r.pick(&ikeys).clone();
+                if !used.insert(k.clone()) {
+                    continue;
+                }
+                if j > 0 && r.chance(1, 5) {
+                    items.push(WriteItem { k, kind: WKind::Del, v: Bytes(vec![]) });
+                } else {
+                    let v = crate::gen::gen_value(&mut st, &mut r, &cfg);
+                    items.push(WriteItem { k, kind: WKind::Put, v });
+                }
+            }
+            items.sort_by(|a, b| a.k.cmp(&b.k));
+            a.push(Act::Ingest(items));
+            a.push(Act::Pause);
+            a.push(Act::Pause);
+        }
+        threads.push(("ingester".into(), a));
+        // readers look at the ingested keys too
+        for (role, acts) in threads.iter_mut() {
+            if role == "reader" {
+                for act in acts.iter_mut() {
+                    if let Act::Read { keys: ks, .. } = act {
+                        if r.chance(1, 2) {
+                            ks.push(r.pick(&ikeys).clone());
+                        }
+                    }
+                }
+            }
+        }
+    }
     // optional auditor
     if r.chance(1, 2) {
         let mut a = Vec::new();
@@ -206,7 +254,11 @@ pub fn gen_conc(prop: &PropDef, seed: u64, tier: &str) -> RunSpec {
         property: prop.id.to_string(),
         seed,
         cfg,
-        keys,
+        keys: {
+            let mut k = keys;
+            k.extend(ikeys);
+            k
+        },
         ops: vec![],
         extra: serde_json::to_value(&cs).unwrap(),
     }
@@ -275,56 +327,66 @@ fn thread_body(
                     ev: shared.next_ev(),
                 });
             }
-            Act::Read { keys, scan } => {
+            Act::Read { keys, scan, reread } => {
                 // the documented protocol: a snapshot is read from visible_seqno and registered
                 // with the caller's snapshot tracker in one step
-                let (s, _e) = sched::no_yield(|| {
+                let (s, e_s) = sched::no_yield(|| {
                     let s = visible.get();
                     *shared.live.lock().unwrap().entry(s).or_insert(0) += 1;
                     let e = shared.next_ev();
                     shared.push(Ev::SnapOpen { tid, s, ev: e });
                     (s, e)
                 });
-                for k in &keys {
-                    match tree.get(k.0.as_slice(), s) {
-                        Ok(v) => shared.push(Ev::Read {
-                            tid,
-                            s,
-                            key: k.0.clone(),
-                            got: v.map(|x| x.to_vec()),
-                            ev: shared.next_ev(),
-                        }),
-                        Err(e) => shared.push(Ev::Error {
-                            tid,
-                            what: format!("get returned Err({e:?})"),
-                            ev: shared.next_ev(),
-                        }),
-                    }
-                }
-                if scan {
-                    let mut got = Vec::new();
-                    let mut failed = None;
-                    for g in tree.iter(s, None) {
-                        match g.into_inner() {
-                            Ok((k, v)) => got.push((k.to_vec(), v.to_vec())),
-                            Err(e) => {
-                                failed = Some(format!("scan returned Err({e:?})"));
-                                break;
-                            }
+                for pass in 0..if reread { 2 } else { 1 } {
+                    if pass == 1 {
+                        // let the others run for a while, then ask the same questions again
+                        for _ in 0..3 {
+                            sched::yield_point("actor:hold-snapshot");
                         }
                     }
-                    match failed {
-                        None => shared.push(Ev::Scan {
-                            tid,
-                            s,
-                            got,
-                            ev: shared.next_ev(),
-                        }),
-                        Some(m) => shared.push(Ev::Error {
-                            tid,
-                            what: m,
-                            ev: shared.next_ev(),
-                        }),
+                    for k in &keys {
+                        match tree.get(k.0.as_slice(), s) {
+                            Ok(v) => shared.push(Ev::Read {
+                                tid,
+                                s,
+                                e_s,
+                                key: k.0.clone(),
+                                got: v.map(|x| x.to_vec()),
+                                ev: shared.next_ev(),
+                            }),
+                            Err(e) => shared.push(Ev::Error {
+                                tid,
+                                what: format!("get returned Err({e:?})"),
+                                ev: shared.next_ev(),
+                            }),
+                        }
+                    }
+                    if scan {
+                        let mut got = Vec::new();
+                        let mut failed = None;
+                        for g in tree.iter(s, None) {
+                            match g.into_inner() {
+                                Ok((k, v)) => got.push((k.to_vec(), v.to_vec())),
+                                Err(e) => {
+                                    failed = Some(format!("scan returned Err({e:?})"));
+                                    break;
+                                }
+                            }
+                        }
+                        match failed {
+                            None => shared.push(Ev::Scan {
+                                tid,
+                                s,
+                                e_s,
+                                got,
+                                ev: shared.next_ev(),
+                            }),
+                            Some(m) => shared.push(Ev::Error {
+                                tid,
+                                what: m,
+                                ev: shared.next_ev(),
+                            }),
+                        }
                     }
                 }
                 sched::no_yield(|| {
@@ -336,6 +398,54 @@ fn thread_body(
                         }
                     }
                 });
+            }
+            Act::Ingest(items) => {
+                let begin_ev = shared.next_ev();
+                shared.push(Ev::MaintBegin { tid, what: "ingest", ev: begin_ev });
+                let r = (|| -> lsm_tree::Result<()> {
+                    let mut ing = tree.ingestion()?;
+                    for w in &items {
+                        match w.kind {
+                            WKind::Put => ing.write(w.k.0.as_slice(), w.v.0.as_slice())?,
+                            _ => ing.write_tombstone(w.k.0.as_slice())?,
+                        }
+                    }
+                    ing.finish()
+                })();
+                match r {
+                    Ok(()) => {
+                        // the seqno of the ingested batch is what its tables carry: find the
+                        // stored entry of the first ingested value (values are unique)
+                        let g = sched::no_yield(|| {
+                            let probe = items.iter().find(|w| w.kind == WKind::Put)?;
+                            let d = lsm_tree::verif::dump_current(&tree);
+                            for t in d.levels.iter().flatten().flatten() {
+                                for e in t.iter().flatten() {
+                                    if e.key.user_key.as_ref() == probe.k.0.as_slice()
+                                        && e.value.as_ref() == probe.v.0.as_slice()
+                                    {
+                                        return Some(e.key.seqno);
+                                    }
+                                }
+                            }
+                            None
+                        });
+                        if let Some(g) = g {
+                            shared.push(Ev::IngestDone {
+                                g,
+                                items: items.clone(),
+                                begin_ev,
+                                ev: shared.next_ev(),
+                            });
+                        }
+                    }
+                    Err(e) => shared.push(Ev::Error {
+                        tid,
+                        what: format!("ingestion returned Err({e:?})"),
+                        ev: shared.next_ev(),
+                    }),
+                }
+                shared.push(Ev::MaintEnd { tid, ev: shared.next_ev() });
             }
             Act::Rotate => {
                 let _ = tree.rotate_memtable();
@@ -570,6 +680,7 @@ pub fn run_conc(prop: &PropDef, spec: &RunSpec, workdir: &Path, index: u64) -> R
     let mut writes: Vec<(u64, Vec<WriteItem>, u64, Option<u64>)> = Vec::new();
     let mut snap_ev: BTreeMap<(u32, u64), u64> = BTreeMap::new();
     let mut maint: Vec<(u64, Option<u64>, u32)> = Vec::new();
+    let mut ingests = 0u64;
     for e in &log {
         match e {
             Ev::WriteBegin { s, items, ev } => writes.push((*s, items.clone(), *ev, None)),
@@ -577,6 +688,12 @@ pub fn run_conc(prop: &PropDef, spec: &RunSpec, workdir: &Path, index: u64) -> R
                 if let Some(w) = writes.iter_mut().find(|w| w.0 == *s) {
                     w.3 = Some(*ev);
                 }
+            }
+            Ev::IngestDone { g, items, begin_ev, .. } => {
+                // in the unchanged protocol a snapshot above g can only be read after the
+                // ingested tables were registered, so these entries are never "in flight"
+                writes.push((*g, items.clone(), *begin_ev, Some(0)));
+                ingests += 1;
             }
             Ev::MaintBegin { tid, ev, .. } => maint.push((*ev, None, *tid)),
             Ev::MaintEnd { tid, ev } => {
@@ -598,6 +715,7 @@ pub fn run_conc(prop: &PropDef, spec: &RunSpec, workdir: &Path, index: u64) -> R
         }
     }
     stats.add("probe_overlapping_maintenance_pairs", overlapping);
+    stats.add("probe_concurrent_ingestions", ingests);
     let mut reads_checked = 0u64;
     let mut reads_with_inflight = 0u64;
     if outcome.is_ok() {
@@ -635,8 +753,8 @@ pub fn run_conc(prop: &PropDef, spec: &RunSpec, workdir: &Path, index: u64) -> R
                     );
                     break;
                 }
-                Ev::Read { tid, s, key, got, ev } => {
-                    let e_s = snap_ev.get(&(*tid, *s)).copied().unwrap_or(*ev);
+                Ev::Read { tid, s, e_s, key, got, ev } => {
+                    let e_s = *e_s;
                     let acc = acceptable(&writes, key, *s, e_s);
                     reads_checked += 1;
                     if acc.len() > 1 {
@@ -663,8 +781,9 @@ pub fn run_conc(prop: &PropDef, spec: &RunSpec, workdir: &Path, index: u64) -> R
                         break;
                     }
                 }
-                Ev::Scan { tid, s, got, ev } => {
-                    let e_s = snap_ev.get(&(*tid, *s)).copied().unwrap_or(*ev);
+                Ev::Scan { tid, s, e_s, got, ev } => {
+                    let e_s = *e_s;
+                    let _ = ev;
                     reads_checked += 1;
                     let mut prev: Option<&Vec<u8>> = None;
                     let mut bad = None;
@@ -702,6 +821,69 @@ pub fn run_conc(prop: &PropDef, spec: &RunSpec, workdir: &Path, index: u64) -> R
                 _ => {}
             }
         }
+    }
+    // snapshot stability: the same question at the same snapshot gets the same answer
+    if outcome.is_ok() {
+        let mut seen: BTreeMap<(u32, u64, Vec<u8>), (Option<Vec<u8>>, u64)> = BTreeMap::new();
+        let mut seen_scan: BTreeMap<(u32, u64), (Vec<(Vec<u8>, Vec<u8>)>, u64)> = BTreeMap::new();
+        let mut rereads = 0u64;
+        for e in &log {
+            match e {
+                Ev::Read { tid, s, e_s, key, got, ev } => {
+                    // a snapshot that covers a write which had not returned when the snapshot
+                    // was read is not one "the writer has already published" for that key
+                    if acceptable(&writes, key, *s, *e_s).len() > 1 {
+                        continue;
+                    }
+                    match seen.get(&(*tid, *e_s, key.clone())) {
+                        Some((first, ev0)) => {
+                            rereads += 1;
+                            if first != got {
+                                outcome = fail(
+                                    "snapshot",
+                                    "conc/snapshot-unstable",
+                                    format!(
+                                        "reader thread {tid}: get({}) at snapshot {s} returned {} at event {ev0} and {} at event {ev}",
+                                        Bytes(key.clone()).short(),
+                                        crate::engine::fmt_opt(first),
+                                        crate::engine::fmt_opt(got)
+                                    ),
+                                );
+                                break;
+                            }
+                        }
+                        None => {
+                            seen.insert((*tid, *e_s, key.clone()), (got.clone(), *ev));
+                        }
+                    }
+                }
+                Ev::Scan { tid, s, e_s, got, ev } => match seen_scan.get(&(*tid, *e_s)) {
+                    Some((first, ev0)) => {
+                        rereads += 1;
+                        let inflight = writes
+                            .iter()
+                            .any(|w| w.0 < *s && !w.3.is_some_and(|e| e < *e_s));
+                        if first != got && !inflight {
+                            outcome = fail(
+                                "snapshot",
+                                "conc/snapshot-unstable-scan",
+                                format!(
+                                    "reader thread {tid}: scan at snapshot {s} yielded {} items at event {ev0} and {} items at event {ev} (different content)",
+                                    first.len(),
+                                    got.len()
+                                ),
+                            );
+                            break;
+                        }
+                    }
+                    None => {
+                        seen_scan.insert((*tid, *e_s), (got.clone(), *ev));
+                    }
+                },
+                _ => {}
+            }
+        }
+        stats.add("probe_snapshot_rereads_under_schedule", rereads);
     }
     stats.add("conc_reads_checked", reads_checked);
     stats.add("probe_reads_with_inflight_write", reads_with_inflight);
